@@ -34,8 +34,9 @@ def one(sid, tier, confirm):
     try:
         demo = os.path.join(sdir, meta.get("demo", "demo.py"))
         if confirm:
-            shutil.copy(demo, os.path.join(dst, "_demo.py"))
-            rc0, _ = run_demo(dst, os.path.join(dst, "_demo.py"))
+            os.makedirs(os.path.join(dst, "_seed"), exist_ok=True)  # the demos were written to live in <tree>/_seed/
+            shutil.copy(demo, os.path.join(dst, "_seed", "demo.py"))
+            rc0, _ = run_demo(dst, os.path.join(dst, "_seed", "demo.py"))
             out["demo_without"] = rc0
         r = subprocess.run(["patch", "-p1", "-s", "-d", dst, "-i", os.path.join(sdir, "patch.diff")],
                            capture_output=True, text=True)
@@ -43,7 +44,7 @@ def one(sid, tier, confirm):
             out["error"] = "patch does not apply: " + (r.stdout + r.stderr)[-200:]
             return out
         if confirm:
-            rc1, tail = run_demo(dst, os.path.join(dst, "_demo.py"))
+            rc1, tail = run_demo(dst, os.path.join(dst, "_seed", "demo.py"))
             out["demo_with"] = rc1
             t = subprocess.run([PY, "-m", "pytest", "-q", "-p", "no:cacheprovider", "-x"], cwd=dst,
                                env=dict(os.environ, PYTHONPATH=dst), capture_output=True, text=True, timeout=900)
